@@ -67,14 +67,9 @@ def Rs (t : Tag) (s s' : St) : Prop :=
   | .pattern => AppE E P1 s s'
   | .expr | .assignmentExpr => App PE s s'
   | .prattLoop | .prattLoopNoLb | .postfixLoop => Repl s s'
-  | .type_ | .typeUnion | .typePrimary => AppE E (TB c) s s'
-  | .typeTupleOrParen => App (TB c) s s'
   | .argLoop | .tuplePatternLoop | .matchTuplePatternLoop => Sep E c P1 s s'
   | .tupleExprLoop | .arrayLoop | .macroArgLoop => Sep E c PE s s'
   | .recordPatternLoop => Sep E c (PRecPat c) s s'
-  | .typeTupleLoop => Sep E c (TB c) s s'
-  | .typeRecordLoop => Sep E c (PRecTy c) s s'
-  | .recordUpdateLoop => Sep E c (PField c) s s'
   | .useMultiLoop => App (UM c) s s'
   | .usePathLoop | .qualifiedPathLoop => App (fun w => ∀ g ∈ w, QPok c g) s s'
   | .blockLoop => App (fun w => ∀ g ∈ w, IsNode g) s s'
